@@ -705,6 +705,24 @@ class Executor:
             if cont is None:
                 self._finish(st, "unreachable", None, out)
             return None
+        # `?` on a known Ok/Some/Err/None aggregate: Try::branch / from_residual are modelled exactly
+        model = None
+        if path is not None and args and isinstance(args[0], tuple) and args[0] and args[0][0] == "agg" and args[0][1] == "adt" and t.get("t") is not None:
+            X = args[0]
+            if path.endswith("Try>::branch") or path == "std::ops::Try::branch":
+                if X[3] in ("Ok", "Some"):
+                    model = ("agg", "adt", "std::ops::ControlFlow", "Continue", (("0", X[4][0][1]),), 0)
+                elif X[3] == "Err":
+                    model = ("agg", "adt", "std::ops::ControlFlow", "Break", (("0", ("agg", "adt", X[2], "Err", X[4], 1)),), 1)
+                elif X[3] == "None":
+                    model = ("agg", "adt", "std::ops::ControlFlow", "Break", (("0", ("agg", "adt", X[2], "None", (), 0)),), 1)
+            elif path.endswith("from_residual") and X[3] in ("Err", "None"):
+                model = X
+        if model is not None:
+            st.effects.append(("call", ev, desc, tuple(args), depth, t["s"], fn.key, True, f, ()))
+            st.effects.append(("ret", ev, desc, model, depth))
+            st.write(dest, model)
+            return t["t"]
         do_inline = (
             self.inline
             and callee is not None
